@@ -216,7 +216,7 @@ def main(mod):
     if a.replay:
         rp = json.load(open(a.replay))
         try:
-            ctx.driver = build.build_for(prop)
+            ctx.driver = build.build_for(prop, getattr(mod, 'DRIVER_PROP', None))
         except build.BuildError as e:
             print("build failed: %s" % e.stage)
             return 2
@@ -226,7 +226,7 @@ def main(mod):
 
     # 1. rebuild model + proofs from the current tree
     try:
-        ctx.driver = build.build_for(prop)
+        ctx.driver = build.build_for(prop, getattr(mod, 'DRIVER_PROP', None))
     except build.BuildError as e:
         build_error = {"stage": e.stage, "log": e.log[-3000:]}
     if build_error is None:
@@ -236,10 +236,11 @@ def main(mod):
         # model may still be runnable even if a proof broke: try to get the driver alone
         try:
             with build.Lock():
-                ext = "Extract/%s_extract.vo" % prop
-                if os.path.exists(os.path.join(COQ, "Extract", "%s_extract.v" % prop)):
+                dp = getattr(mod, "DRIVER_PROP", None) or prop
+                ext = "Extract/%s_extract.vo" % dp
+                if os.path.exists(os.path.join(COQ, "Extract", "%s_extract.v" % dp)):
                     build.coq_make([ext])
-                    ctx.driver = build.build_driver(prop)
+                    ctx.driver = build.build_driver(dp)
         except build.BuildError:
             ctx.driver = None
 
